@@ -150,7 +150,7 @@ def build_facts(config="all", repo=REPO, verbose=True):
         lock.close()
 
 
-KEEP_FACT_DIRS = 6
+KEEP_FACT_DIRS = 12
 
 
 def load(config="all", repo=REPO):
